@@ -109,6 +109,18 @@ func randomBlock(c *vlib.Ctx, sim *chain.Sim, r *rand.Rand, stats map[string]int
 	var v1 []types.Transaction
 	var v2 []types.V2Transaction
 	var items []map[string]any
+	// created siafund outputs: the claim start reported in the trace is the one the CODE gave the element (read back
+	// from the store after the block is applied), not the driver's prediction
+	type pendSF struct {
+		m          map[string]any
+		ver, ti, oi int
+	}
+	var pends []pendSF
+	sfout := func(ver, ti, oi int, predicted types.Currency) {
+		m := map[string]any{"k": "sfout", "cs": L(predicted)}
+		items = append(items, m)
+		pends = append(pends, pendSF{m, ver, ti, oi})
+	}
 	pool := cs.SiafundTaxRevenue
 	pickSC := func(min types.Currency) (types.SiacoinElement, bool) {
 		for _, id := range chain.SortedIDs(sim.Store.SC) {
@@ -196,8 +208,8 @@ func randomBlock(c *vlib.Ctx, sim *chain.Sim, r *rand.Rand, stats map[string]int
 				v1 = append(v1, t)
 				val := pool.Sub(e.ClaimStart).Div64(10000).Mul64(e.SiafundOutput.Value)
 				items = append(items, map[string]any{"k": "claim", "start": L(e.ClaimStart), "n": e.SiafundOutput.Value, "val": L(val)})
-				for range t.SiafundOutputs {
-					items = append(items, map[string]any{"k": "sfout", "cs": L(pool)})
+				for oi := range t.SiafundOutputs {
+					sfout(1, len(v1)-1, oi, pool)
 				}
 				if !val.IsZero() {
 					stats["claim-nonzero"]++
@@ -288,8 +300,8 @@ func randomBlock(c *vlib.Ctx, sim *chain.Sim, r *rand.Rand, stats map[string]int
 				}
 				val := pool.Sub(e.ClaimStart).Div64(10000).Mul64(e.SiafundOutput.Value)
 				items = append(items, map[string]any{"k": "claim", "start": L(e.ClaimStart), "n": e.SiafundOutput.Value, "val": L(val)})
-				for range t.SiafundOutputs {
-					items = append(items, map[string]any{"k": "sfout", "cs": L(pool)})
+				for oi := range t.SiafundOutputs {
+					sfout(2, len(v2), oi, pool)
 				}
 				if !val.IsZero() {
 					stats["claim-nonzero"]++
@@ -316,6 +328,28 @@ func randomBlock(c *vlib.Ctx, sim *chain.Sim, r *rand.Rand, stats map[string]int
 			signC(&fc)
 			addIn(e)
 			t.FileContracts = []types.V2FileContract{fc}
+			if r.Intn(2) == 0 { // the same transaction also moves siafunds: their claim and the new outputs' claim start precede this contract's tax
+				for _, id := range chain.SortedIDs(sim.Store.SF) {
+					se := sim.Store.SF[id]
+					if used[id] {
+						continue
+					}
+					used[id] = true
+					t.SiafundInputs = []types.V2SiafundInput{{Parent: se.Copy(), ClaimAddress: addr, SatisfiedPolicy: types.SatisfiedPolicy{Policy: k.Policy("A")}}}
+					a := uint64(1 + r.Intn(int(se.SiafundOutput.Value)))
+					t.SiafundOutputs = append(t.SiafundOutputs, types.SiafundOutput{Value: a, Address: addr})
+					if a < se.SiafundOutput.Value {
+						t.SiafundOutputs = append(t.SiafundOutputs, types.SiafundOutput{Value: se.SiafundOutput.Value - a, Address: addr})
+					}
+					val := pool.Sub(se.ClaimStart).Div64(10000).Mul64(se.SiafundOutput.Value)
+					items = append(items, map[string]any{"k": "claim", "start": L(se.ClaimStart), "n": se.SiafundOutput.Value, "val": L(val)})
+					for oi := range t.SiafundOutputs {
+						sfout(2, len(v2), oi, pool)
+					}
+					stats["sf2+form2"]++
+					break
+				}
+			}
 			if ch := e.SiacoinOutput.Value.Sub(cost); !ch.IsZero() {
 				t.SiacoinOutputs = []types.SiacoinOutput{{Value: ch, Address: addr}}
 			}
@@ -427,6 +461,21 @@ func randomBlock(c *vlib.Ctx, sim *chain.Sim, r *rand.Rand, stats map[string]int
 		stats["subsidy"]++
 	}
 	sim.Apply(b, bs)
+	for _, p := range pends {
+		var id types.SiafundOutputID
+		if p.ver == 1 {
+			id = v1[p.ti].SiafundOutputID(p.oi)
+		} else {
+			id = v2[p.ti].SiafundOutputID(v2[p.ti].ID(), p.oi)
+		}
+		if e, ok := sim.Store.SF[id]; ok {
+			p.m["cs"] = L(e.ClaimStart)
+			stats["sfout-observed"]++
+		} else {
+			c.Infra("real-magnitude chain: created siafund output %v is not in the store after the block at height %d", id, child)
+			return nil, false
+		}
+	}
 	utxo, l1, l2, poolAfter, sf := sim.Sums()
 	return map[string]any{"ev": "block", "h": child, "items": itemsOrEmpty(items), "pool0": L(cs.SiafundTaxRevenue), "pool": vlib.Limbs(poolAfter),
 		"payout": L(b.MinerPayouts[0].Value), "fees": L(fees), "subsidy": L(sub.Value), "void": cs.FoundationSubsidyAddress == types.VoidAddress,
